@@ -761,7 +761,7 @@ def s5_iterator_reuse(chk, funcs):
     for f in funcs:
         has = False
         bad = None
-        for p in map(inline_bool_locals, paths(f["body"])):
+        for p in paths(f["body"]):
             dead = {}
             for ev in p:
                 for e in event_exprs(ev):
@@ -811,7 +811,7 @@ def s6_handover(chk, db, rec_q, funcs):
         chk.instance("S6")
         bad = None
         moved_to_value = False
-        for p in map(inline_bool_locals, paths(f["body"])):
+        for p in paths(f["body"]):
             refs = set()
             for ev in p:
                 if ev[0] == "decl":
@@ -830,7 +830,7 @@ def s6_handover(chk, db, rec_q, funcs):
         # clear(), exchange(member, {}) or an assignment of an empty container to the member
         not_emptied = None
         if bad is None and moved_to_value:
-            for p in map(inline_bool_locals, paths(f["body"])):
+            for p in paths(f["body"]):
                 emptied = False
                 for ev in p:
                     for e in event_exprs(ev):
